@@ -14,6 +14,23 @@ for s in $(cat $out/w*.log | grep "fired={}" | cut -d: -f1); do
   python3 tools/seed_eval.py /verif/seeded/$s --recheck --tier=thorough 2>&1 | tail -1 | sed 's/$/  [thorough tier]/'
 done | tee $out/thorough.log
 grep "fired={}" $out/thorough.log && echo "UNDETECTED (above)"
+# a change that lives in a nightly-only arm (or a debug-only assertion) is not in the quick tier's facts of its own
+# property: re-run that property's thorough tier for the seeds whose own check was silent at the quick tier
+for s in $(python3 - <<'PY'
+import json, os
+V = "/verif/seeded"
+for sid in sorted(os.listdir(V)):
+    mp = os.path.join(V, sid, "meta.json")
+    if not os.path.exists(mp):
+        continue
+    m = json.load(open(mp))
+    own = m.get("property")
+    if own and m.get("checks_fired") and own not in m["checks_fired"]:
+        print(sid)
+PY
+); do
+  python3 tools/seed_eval.py /verif/seeded/$s --recheck --tier=thorough --checks=${s%-*} --merge 2>&1 | tail -1 | sed 's/$/  [own property, thorough tier]/'
+done
 cat $out/w*.log | wc -l
 rm -rf $out /tmp/se-target-[0-5]
 python3 tools/seed_report.py | tail -1
